@@ -5,7 +5,7 @@ From Coq Require Import String.
 From Coq Require Import Reals List Bool Arith Lia.
 From Coquelicot Require Import Coquelicot.
 From Cij Require Import Ops ROps PolyModel InterpModel Poly Interp InterpMore.
-From CijGen Require Import MGFlowBase MGFlowR Gen_modegamma.
+From CijGen Require Import MGFlowBase MGLoopSem MGFlowR Gen_modegamma.
 From CijGen Require Import Tie_modegamma_spline Tie_modegamma_lagrange Tie_modegamma_krogh Tie_modegamma_ppoly
      Tie_modegamma_lsq_poly Tie_modegamma_loop.
 Import ListNotations.
